@@ -3,6 +3,7 @@
 package verifmodel
 
 import (
+	"runtime"
 	"context"
 	"errors"
 
@@ -27,6 +28,7 @@ func hqFail() bool {
 }
 
 func HQAdd(c *gocrawlhq.Client, ctx context.Context, urls []gocrawlhq.URL, bypass bool) error {
+	runtime.Gosched() // network I/O: every interleaving with the other goroutines is possible here
 	if hqFail() {
 		return ErrHQFailed
 	}
@@ -37,6 +39,7 @@ func HQAdd(c *gocrawlhq.Client, ctx context.Context, urls []gocrawlhq.URL, bypas
 }
 
 func HQDelete(c *gocrawlhq.Client, ctx context.Context, urls []gocrawlhq.URL, localCrawls int) error {
+	runtime.Gosched() // network I/O: every interleaving with the other goroutines is possible here
 	if hqFail() {
 		return ErrHQFailed
 	}
@@ -55,6 +58,7 @@ var (
 )
 
 func HQSeencheck(c *gocrawlhq.Client, ctx context.Context, urls []gocrawlhq.URL) ([]gocrawlhq.URL, error) {
+	runtime.Gosched() // network I/O: every interleaving with the other goroutines is possible here
 	cp := make([]gocrawlhq.URL, len(urls))
 	copy(cp, urls)
 	HQSeencheckSent = append(HQSeencheckSent, cp)
